@@ -9,6 +9,9 @@ ids = [i for i in ids if os.path.isdir(f"{V}/seeded/{i}")]
 jobs = 3
 def run(sid):
     pid = sid[:3]
+    meta = json.load(open(f"{V}/seeded/{sid}/meta.json"))
+    if meta.get("neutralised_by"):
+        return sid, dict(check=pid, result="no longer a defect (neutralised by a later /repo repair: its demo passes with the change applied); check stays quiet", last=meta["neutralised_by"][:200])
     if not os.path.exists(f"{V}/harness/props/{pid}.py"):
         return sid, dict(check=pid, result="no check yet")
     r = subprocess.run([f"{V}/tools/run_seeded.sh", pid, sid], capture_output=True, text=True)
